@@ -15,3 +15,7 @@ def run(rep, tier, seed):
     real_sched.campaign(rep, "C20", tier, seed, checkpoints=True)
     real_sched.campaign_one(rep, "C20", tier, seed, "pbt", n=24 if tier == "quick" else 400)
     real_sched.campaign_early_removal(rep, "C20", tier, seed, n=24 if tier == "quick" else 240)
+    # binding 3: real checkpoint directories of the LocalBackend; every process tells whether it found a checkpoint when
+    # it started (EvLoaded), which is compared with the monitor's checkpoint store
+    from harness.props import local_backend
+    local_backend.campaign(rep, "C20", tier, seed)
